@@ -129,7 +129,7 @@ def near_miss(draw):
     return {"s": s + suffix}
 
 
-pair_hosts = st.one_of(st.sampled_from(["localhost", "h", "127.0.0.1", "a.b", "", "::1", "fe80::1"]),
+pair_hosts = st.one_of(st.sampled_from(["localhost", "h", "127.0.0.1", "a.b", "", "::1", "fe80::1", "server.example.com", "fe80::ab"]),
                        st.text(alphabet="abc01.-", min_size=1, max_size=6))
 
 
@@ -145,6 +145,11 @@ def loc_pair(draw):
         b["host"] = a["host"]          # same host, maybe different port
     proto = draw(st.sampled_from(["PYRO", "PYRONAME", "PYROMETA"]))
     obj = draw(st.sampled_from(["obj", "a,b", "x.y"]))
+    if draw(st.integers(0, 3)) == 0 and "host" in a:
+        # the same location spelled with other letter case: whether such URIs are equal is the library's choice,
+        # but IF they compare equal they must hash equal
+        b = dict(a, host="".join(c.upper() if i % 2 else c for i, c in enumerate(a["host"])))
+        return {"pair": [a, b], "proto": proto, "obj": obj, "casevariant": True}
     return {"pair": [a, b], "proto": proto, "obj": obj}
 
 
@@ -388,6 +393,14 @@ def check_pair(case):
         ua, ub = core.URI(sa), core.URI(sb)
     except Exception as x:
         return [Violation("C19:pair:rejected", "clean location rejected: %r / %r: %r" % (sa, sb, x))]
+    if case.get("casevariant"):
+        if ua == ub:
+            try:
+                if hash(ua) != hash(ub):
+                    viols.append(Violation("C19:pair:equal-but-hash-differs", "%r == %r but their hashes differ" % (sa, sb)))
+            except TypeError:
+                pass
+        return viols
     if a != b:
         if ua == ub or not (ua != ub):
             viols.append(Violation("C19:pair:unequal-locations-compare-equal", "%r == %r" % (sa, sb)))
